@@ -38,9 +38,11 @@ var extraProfs = []regProf{
 	// with or without -75000), one on profile 2 named by an OID
 	{InhP1Name, P1, "psa-profile", "*checks.InheritP1Claims", inheritP1Profile{}},
 	{InhP2OID, P2, "eat-profile", "*checks.InheritP2Claims", inheritP2Profile{}},
+	// own claims under keys that merely start with the digits of the profile keys
+	{RegionP2Name, P2, "eat-profile", "*checks.RegionP2Claims", regionP2Profile{}},
 }
 
-var c07Names = []string{P1Name, P2Name, ExtP2Name, ExtP1Name, OwnTagName, InhP1Name, InhP2OID, "1.3.6.1.4.1.4128.100.3", "http://example.com/unknown", "PSA_IOT_PROFILE_2", "psa_iot_profile_1", "http://arm.com/psa/2.0.0/", "http://ARM.com/psa/2.0.0", "1.2.3.4",
+var c07Names = []string{P1Name, P2Name, ExtP2Name, ExtP1Name, OwnTagName, InhP1Name, InhP2OID, RegionP2Name, "1.3.6.1.4.1.4128.100.3", "http://example.com/unknown", "PSA_IOT_PROFILE_2", "psa_iot_profile_1", "http://arm.com/psa/2.0.0/", "http://ARM.com/psa/2.0.0", "1.2.3.4",
 	// spellings that URL / string normalisation would map onto a registered name
 	"HTTP://arm.com/psa/2.0.0", "http://arm.com/psa/2.0.0#", "http://arm.com/psa/2.0.0?", "http://arm.com:80/psa/2.0.0", "http://arm.com/psa/./2.0.0",
 	"http://arm.com/psa/2.0.0 ", " http://arm.com/psa/2.0.0", "http://arm.com/psa/2.0.0\x00", "http://arm.com/psa/2%2E0.0", "PSA_IOT_PROFILE_1 ", "PSA_IOT_PROFILE_1\n",
@@ -782,7 +784,7 @@ func TestC07_Dispatch(t *testing.T) {
 				}
 			} else {
 				c.S1 = slotVal{Kind: "absent"}
-				c.S2 = slotVal{Kind: "name", Name: rapid.SampledFrom([]string{P2Name, P2Name, ExtP2Name, OwnTagName, InhP2OID}).Draw(t, "p2.name")}
+				c.S2 = slotVal{Kind: "name", Name: rapid.SampledFrom([]string{P2Name, P2Name, ExtP2Name, OwnTagName, InhP2OID, RegionP2Name}).Draw(t, "p2.name")}
 				if c.S2.Name == InhP2OID && c.Format != "json" {
 					c.S2.Kind = "oid"
 				}
